@@ -148,4 +148,22 @@ def serveWriteSized (parseKV : Bytes → Option Bytes) (maxChunk maxRec : Nat) (
     Option (Journal × List WireRT.Event) :=
   if sizeRejected parseKV maxRec body then none else serveWrite parseKV maxChunk j body
 
+/-! ## a graceful stop and restart -/
+
+/-- the first `n` records of a journal, chunk boundaries kept -/
+def truncJournal : Nat → Journal → Journal
+  | _, [] => []
+  | n, c :: cs =>
+    if n ≥ c.recs.length then c :: truncJournal (n - c.recs.length) cs
+    else [⟨c.recs.take n, c.size⟩]
+
+/-- what a partition holds after a graceful stop and a restart on the same directory. `durable` is the number of records (a
+prefix of the stored sequence) that were already CONFIRMED — flushed to the chunk files — when the stop began; the rest sits in
+the chunk writer's buffer (it is flushed on a timer, `WriteFlushMs`). `partition.Service.Shutdown` syncs every journal
+(regenerated fact `shutdownSyncsEveryJournal`, /repo bbe6505), so everything acknowledged survives; the other shape the
+extractor knows — `Sync()` only for a journal with a confirmed record — loses the buffered records of a journal that has none. -/
+def gracefulRestart (j : Journal) (durable : Nat) : Journal :=
+  if Generated.C01.shutdownSyncsEveryJournal then j
+  else if durable > 0 then j else truncJournal durable j
+
 end Logrange.WriteLoopM
